@@ -79,6 +79,9 @@ pub fn check(shape: &Shape, value: &Value, l: &mut Local) -> CaseResult {
 }
 
 pub fn replay(case: &Json, l: &mut Local) -> CaseResult {
+    if case.get("probe").is_some() {
+        return check_human_readable_flag(l);
+    }
     if let Some(r) = super::corpus_checks::replay_corpus(case, l) {
         return r;
     }
@@ -128,6 +131,7 @@ pub fn run(ctx: &Ctx) {
          varint, a float or a composite header (option tag, length prefix, discriminant), or an unknown-length \
          refusal; distinct = hash(shape, bytes)",
     );
+    ctx.serial("human-readable-flag", check_human_readable_flag);
     ctx.assume("reference encoder harness/src/refcodec.rs is written from the spec only and self-tested on the spec's tables");
     ctx.serial("spec-tables", spec_tables);
 
